@@ -323,7 +323,9 @@ impl<const H: usize> Writer<H> {
         self.writer.get_ref().write_all_at(&zero_header, offset)?;
         self.writer.get_ref().sync_data()?;
 
-        // Everything before `offset` is now durable; publish exactly that.
+        // Everything before `offset` is now durable; publish exactly that. Readers must drop
+        // whatever they cached beyond it.
+        self.flushed_offset.invalidate();
         self.flushed_offset.set(offset);
         self.write_offset = offset;
         self.dirty = false;
